@@ -26,7 +26,7 @@ func c13Specs(tier string, seed int) []c13Spec {
 	for _, f := range c18CropFiles() {
 		nv := 3
 		if tier == "thorough" {
-			nv = 8
+			nv = 22
 		}
 		for v := 0; v < nv; v++ {
 			out = append(out, c13Spec{Kind: "cropparam", File: f, Var: v})
@@ -59,7 +59,7 @@ func init() {
 		Assumptions: []string{"same content = same decimal numbers in every encoding (values chosen to fit the narrowest encoding: 2-digit percentages, 4-character carbon content, dyadic temperatures with mean = (min+max)/2)", "weather layouts compared without station-height header (the day-of-year layout cannot carry one)",
 			"the shipped YAML of a crop is expected to hold the same content as its classic file"},
 		Bound: func(t string) string {
-			return "28 crop files x " + map[string]string{"quick": "3", "thorough": "8"}[t] + " variants x 3 encodings; 20 soils x 2; 8 rotations x 2; 12 measurement sets x 2; 8 weather series x 3 layouts; 6 projects x 4 date formats"
+			return "28 crop files x " + map[string]string{"quick": "3", "thorough": "22"}[t] + " variants x 3 encodings; 20 soils x 2; 8 rotations x 2; 12 measurement sets x 2; 8 weather series x 3 layouts; 6 projects x 4 date formats"
 		},
 		Budget: func(t string) time.Duration {
 			if t == "quick" {
@@ -380,7 +380,7 @@ func c13CropParam(c *mc.Ctx, sp c13Spec, root string, run func(string, *proj.Pro
 		if err != nil {
 			mc.HarnessError("read %s: %v", sp.File, err)
 		}
-		groups := []string{"", "base", "stage:1", "stage:2", "part:2", "stage:3", "part:1", "stage:4"}
+		groups := []string{"", "base", "stage:1", "stage:2", "part:2", "stage:3", "part:1", "stage:4", "stage:5", "stage:6", "stage:7", "part:3", "part:4", "part:5", "part:6", "stage:8", "stage:9", "stage:10", "part:7", "part:8", "part:9", "part:10"}
 		cases, ok := c18BuildCases(cp, groups[sp.Var%len(groups)], 1)
 		if !ok || len(cases) == 0 {
 			c.Outcome("variant not applicable to this file")
